@@ -123,3 +123,22 @@ def random_symmetric(rng, n, psd=False):
     if psd:
         return a @ a.T
     return (a + a.T) / 2
+
+
+# ---- "tail regime": shell pairs whose Gaussian product factor exp(-mu_min R^2) is small but not negligible -----------
+TAIL_LADDER = [6.0, 10.0, 14.0, 18.0, 21.0, 24.0, 28.0, 34.0]
+
+
+def tail_pair(rng, la, lb, u, nprim=None):
+    """two shells with moderately tight exponents at a separation R with mu_min * R^2 = u
+    (mu_min from the most diffuse primitives), direction random"""
+    import math
+    sa = rand_shell(rng, la, [], nprim=nprim or rng.randint(1, 2), nseg=rng.randint(1, 2), exp_lo=0.5, exp_hi=20.0)
+    sb = rand_shell(rng, lb, [], nprim=nprim or rng.randint(1, 2), nseg=rng.randint(1, 2), exp_lo=0.5, exp_hi=20.0)
+    a, b = min(sa.exps), min(sb.exps)
+    mu = a * b / (a + b)
+    R = math.sqrt(u / mu)
+    d = np.array([rng.gauss(0, 1) for _ in range(3)])
+    d = d / np.linalg.norm(d) * R
+    ca = [core.snap(rng.uniform(-1, 1), 8) for _ in range(3)]
+    return sa.copy(center=ca), sb.copy(center=[float(x) for x in np.array(ca) + d])
